@@ -163,6 +163,13 @@ def check_interpret(run, fx):
     names = [p["name"] for p in f.params]
     need = ["time", "is_exact", "offset_nanos", "offset_option"]
     if any(n not in names for n in need):
+        if not f.reachable:
+            # a crate-private function whose parameters were re-modelled (a flag and an option merged into an enum): the
+            # table is driven through those parameters, so it is not decided on this signature
+            run.undecided.append({"rule": rule, "key": "params", "why": "the private function interpret_isodatetime_offset no "
+                                  "longer takes %s (it takes %s): its decision table is not decided" % (need, names)})
+            run.ok(rule, "not-decided/params", "private function with a re-modelled signature: not decided", f.loc, nontrivial=False)
+            return
         run.anchor_missing(rule, "params", "parameters %s not all present" % need)
         return
 
@@ -255,8 +262,13 @@ def check_offset_records(run, fx):
         run.check(not missing, rule, f.path, "reads %s" % sorted(reads), "UtcOffsetRecord conversion in %s never reads %s" %
                   (f.name, missing), "%s:%s" % (f.file, min(reads.values())))
     run.analysed["offset_record_conversions"] = n
-    if n < 3:
-        run.anchor_missing(rule, "sites", "only %d UtcOffsetRecord conversions found (expected 3)" % n)
+    if n == 0:
+        run.anchor_missing(rule, "sites", "no UtcOffsetRecord conversion found (3 on the inventory tree)")
+    elif n < 3:
+        # duplicates merged into one helper - or a conversion written in a form this rule does not see: every conversion it
+        # does see is checked, the rest is not decided
+        run.undecided.append({"rule": rule, "key": "sites", "why": "%d UtcOffsetRecord conversion site(s) found, 3 on the "
+                              "inventory tree: the ones found read every field; a conversion in another form is not seen" % n})
 
 
 def check_index_guards(run, fx):
